@@ -172,12 +172,19 @@ func (m *PublishMessage) Decode(src []byte) (int, error) {
 	// The packet identifier field is only present in the PUBLISH packets where the
 	// QoS level is 1 or 2
 	if m.QoS() != 0 {
+		if int(m.remlen)-(total-hn) < 2 {
+			return total, fmt.Errorf("publish/Decode: Insufficient remaining length for the packet ID")
+		}
+
 		//m.packetId = binary.BigEndian.Uint16(src[total:])
 		m.packetID = src[total : total+2]
 		total += 2
 	}
 
 	l := int(m.remlen) - (total - hn)
+	if l < 0 {
+		return total, fmt.Errorf("publish/Decode: Topic name exceeds the remaining length")
+	}
 	m.payload = src[total : total+l]
 	total += len(m.payload)
 
